@@ -256,6 +256,69 @@ def check_history(case, out, versions):
                         "features": {"why": "dispatch", "expected_reject": nm not in model[rn]}})
 
 
+def _fee7():
+    return pt.Txn.fee() == pt.Int(7)
+
+
+# family (g): shapes of a bare-call / clear-state ACTION given as a plain expression.  The Router completes an
+# action that can finish without returning by an Approve.  kind -> (builder, {fee==7: (verdict, logs), else: ...})
+ACTION_KINDS = {
+    "seq_approve": (lambda: pt.Seq(pt.Log(pt.Bytes("X")), pt.Approve()), {True: ("APPROVE", [b"X"]), False: ("APPROVE", [b"X"])}),
+    "no_return": (lambda: pt.Log(pt.Bytes("X")), {True: ("APPROVE", [b"X"]), False: ("APPROVE", [b"X"])}),
+    "cond_last_returns": (lambda: pt.Cond([_fee7(), pt.Log(pt.Bytes("X"))], [pt.Int(1), pt.Seq(pt.Log(pt.Bytes("Y")), pt.Approve())]),
+                          {True: ("APPROVE", [b"X"]), False: ("APPROVE", [b"Y"])}),
+    "cond_first_returns": (lambda: pt.Cond([_fee7(), pt.Seq(pt.Log(pt.Bytes("X")), pt.Approve())], [pt.Int(1), pt.Log(pt.Bytes("Y"))]),
+                           {True: ("APPROVE", [b"X"]), False: ("APPROVE", [b"Y"])}),
+    "cond_three": (lambda: pt.Cond([_fee7(), pt.Seq(pt.Log(pt.Bytes("X")), pt.Reject())], [pt.Txn.fee() == pt.Int(9), pt.Log(pt.Bytes("Z"))],
+                                   [pt.Int(1), pt.Seq(pt.Log(pt.Bytes("Y")), pt.Approve())]),
+                   {True: ("REJECT", [b"X"]), False: ("APPROVE", [b"Y"])}),
+    "if_else_returns": (lambda: pt.If(_fee7()).Then(pt.Log(pt.Bytes("X"))).Else(pt.Seq(pt.Log(pt.Bytes("Y")), pt.Approve())),
+                        {True: ("APPROVE", [b"X"]), False: ("APPROVE", [b"Y"])}),
+    "if_then_returns": (lambda: pt.If(_fee7()).Then(pt.Seq(pt.Log(pt.Bytes("X")), pt.Approve())).Else(pt.Log(pt.Bytes("Y"))),
+                        {True: ("APPROVE", [b"X"]), False: ("APPROVE", [b"Y"])}),
+    "if_then_rejects": (lambda: pt.If(_fee7()).Then(pt.Seq(pt.Log(pt.Bytes("X")), pt.Reject())),
+                        {True: ("REJECT", [b"X"]), False: ("APPROVE", [])}),
+    "seq_if_approve": (lambda: pt.Seq(pt.Log(pt.Bytes("X")), pt.If(_fee7()).Then(pt.Approve())),
+                       {True: ("APPROVE", [b"X"]), False: ("APPROVE", [b"X"])}),
+    "while_then_fall": (lambda: pt.Seq(pt.While(pt.Int(0)).Do(pt.Approve()), pt.Log(pt.Bytes("X"))),
+                        {True: ("APPROVE", [b"X"]), False: ("APPROVE", [b"X"])}),
+}
+
+
+def check_action(case, out, versions):
+    cnt, oc_ = out["counters"], out["outcomes"]
+    build, table = ACTION_KINDS[case["action"]]
+    for ver in versions:
+        try:
+            if case["place"] == "bare":
+                router = pt.Router("r", pt.BareCallActions(no_op=pt.OnCompleteAction(action=build(), call_config=pt.CallConfig.CALL)),
+                                   clear_state=pt.Approve())
+            else:
+                router = pt.Router("r", pt.BareCallActions(no_op=pt.OnCompleteAction(action=pt.Approve(), call_config=pt.CallConfig.CREATE)),
+                                   clear_state=build())
+            router.add_method_handler(make_method("m0", "Mm0"), method_config=pt.MethodConfig(no_op=pt.CallConfig.CALL))
+            approval, clear, _c = router.compile_program(version=ver)
+        except Exception as e:
+            out["violations"].append({"driver": "action", "size": 1, "title": "v%d router with %s action %s does not build: %r" % (
+                ver, case["place"], case["action"], e), "case": case, "version": ver, "features": {"why": "rejected"}})
+            continue
+        p = asm.assemble(approval if case["place"] == "bare" else clear)
+        for fee in (7, 8):
+            txn = interp.default_txn(ApplicationArgs=[], OnCompletion=0 if case["place"] == "bare" else 3, ApplicationID=7, Fee=fee)
+            res = interp.run(p, interp.Ctx(mode="A", group=[txn]), fuel=20000)
+            cnt["traces_validated"] = cnt.get("traces_validated", 0) + 1
+            want_v, want_logs = table[fee == 7]
+            got_v = res.verdict
+            oc_["action:" + res.verdict] = oc_.get("action:" + res.verdict, 0) + 1
+            if got_v != want_v or (want_v == "APPROVE" and res.logs != want_logs):
+                out["violations"].append({
+                    "driver": "action", "size": 1,
+                    "title": "v%d %s action %s, fee %d: expected %s logs=%r, got %s %s logs=%r" % (
+                        ver, case["place"], case["action"], fee, want_v, want_logs, res.verdict, res.why, res.logs),
+                    "case": case, "version": ver, "teal": approval if case["place"] == "bare" else clear,
+                    "features": {"why": "action", "expected_reject": want_v == "REJECT"}})
+
+
 _COLLISION = None
 
 
@@ -311,6 +374,11 @@ def check_collision(case, out, versions):
 def _worker(items, base):
     out = {"counters": {}, "outcomes": {}, "violations": [], "samples": []}
     for case in items:
+        if "action" in case:
+            check_action(case, out, _VERSIONS)
+            out["counters"]["states"] = out["counters"].get("states", 0) + 1
+            out["counters"]["transitions"] = out["counters"].get("transitions", 0) + 2
+            continue
         if "collision" in case:
             check_collision(case, out, _VERSIONS)
             out["counters"]["states"] = out["counters"].get("states", 0) + 1
@@ -370,6 +438,10 @@ def router_cases(tier):
     # (f) indistinguishable methods
     for k in ("collide", "collide-rev", "same"):
         cases.append({"collision": k})
+    # (g) action shapes (returning on some / all / no paths) as bare-call and as clear-state action
+    for k in ACTION_KINDS:
+        for place in ("bare", "clear"):
+            cases.append({"action": k, "place": place})
     return cases
 
 
@@ -398,7 +470,9 @@ def run(tier):
 
 def replay(case):
     out = {"counters": {}, "outcomes": {}, "violations": [], "samples": []}
-    if "collision" in case["case"]:
+    if "action" in case["case"]:
+        check_action(case["case"], out, (case["version"],))
+    elif "collision" in case["case"]:
         check_collision(case["case"], out, (case["version"],))
     elif "history" in case["case"]:
         check_history(case["case"], out, (case["version"],))
